@@ -73,3 +73,58 @@ def permuted_pairs_grammar(r, npairs=None):
         branches.append(gast.seq(b, gast.lit('y%d' % i)))
     r.shuffle(branches)
     return [gast.call('cmd', gast.alt(*branches))]
+
+
+def loopy_grammar(r, inword=None):
+    """Small alphabets under nested repetition, option and alternation: many states that differ only in how far
+    a loop has been unrolled, the shape on which a partition-refinement bug shows (found with
+    `cmd ([[a]] a (a b b|a a a))...;`).  With inword the same shapes are put inside one word (nested automaton)."""
+    alpha = r.choice(['ab', 'abc', 'abc', 'abcd'])
+    if inword is None:
+        inword = r.random() < 0.25
+
+    def e(d):
+        k = r.random()
+        if d == 0 or k < 0.22:
+            return gast.lit(r.choice(alpha))
+        if k < 0.50:
+            return gast.seq(*[e(d - 1) for _ in range(r.randint(2, 4))])
+        if k < 0.65:
+            return gast.alt(*[e(d - 1) for _ in range(r.randint(2, 3))])
+        if k < 0.82:
+            return gast.many(e(d - 1))
+        return gast.opt(e(d - 1))
+
+    def atom():
+        k = r.random()
+        x, y = r.sample(alpha, 2)
+        if k < 0.4:
+            return gast.alt(gast.lit(x), gast.lit(y))
+        if k < 0.6:
+            return gast.many(gast.lit(x))
+        if k < 0.8:
+            return gast.opt(gast.lit(x))
+        return gast.lit(x)
+
+    def w(d):
+        k = r.random()
+        if d == 0 or k < 0.2:
+            return atom()
+        if k < 0.6:
+            parts = []
+            for _ in range(r.randint(2, 4)):
+                p = w(d - 1)
+                if parts and parts[-1][0] == 'lit' and p[0] == 'lit':
+                    p = gast.opt(p)
+                parts.append(p)
+            return ('word', tuple(parts))
+        if k < 0.72:
+            return gast.alt(w(d - 1), w(d - 1))
+        if k < 0.88:
+            return gast.many(w(d - 1))
+        return gast.opt(w(d - 1))
+    if inword:
+        body = ('word', (gast.lit(r.choice(['k=', '-', 'x:'])), w(r.randint(1, 3))))
+        tail = gast.seq(body, gast.lit('end')) if r.random() < 0.5 else body
+        return [gast.call('cmd', tail)]
+    return [gast.call('cmd', e(r.randint(2, 4)))]
